@@ -142,7 +142,7 @@ func (g *graphGen) bind(kind, expr string) string {
 }
 
 func (g *graphGen) block() {
-	switch n := g.r.Intn(26); n {
+	switch n := g.r.Intn(23); n {
 	case 20: // collections at and around the table's growth thresholds
 		sz := []int{7, 8, 9, 12, 13, 14, 25, 26, 27, 52, 53}[g.r.Intn(11)]
 		switch g.r.Intn(3) {
@@ -167,7 +167,7 @@ func (g *graphGen) block() {
 		}
 		return
 	}
-	switch n := g.r.Intn(20); n {
+	switch n := g.r.Intn(25); n {
 	case 0:
 		g.bind("list", fmt.Sprintf("[%s, %s, %s]", g.scalar(), g.ref(), g.scalar()))
 	case 1:
@@ -249,7 +249,12 @@ func (g *graphGen) block() {
 		} else {
 			g.bind("list", g.leaf2("list"))
 		}
-	case 23, 24, 25: // new values built from a frozen operand and a fresh mutable one
+	case 23, 24: // a closure frozen by the host while the call that created it is still running
+		f, mk := g.fresh("early"), g.fresh("mk")
+		first := g.r.Pick([]string{"    x = " + g.leaf() + "\n", "", "    x = None\n"})
+		g.unit("def %s():\n%s    def %s():\n        return x\n    freeze(%s)\n    x = %s\n    return %s\n", mk, first, f, f, g.leaf(), f)
+		g.bind("", mk+"()")
+	case 20, 21, 22: // new values built from a frozen operand and a fresh mutable one
 		if g.o.Host {
 			in := g.leaf()
 			if g.r.Chance(1, 3) {
